@@ -46,6 +46,7 @@ pub const SESSIONS: &[(&str, &str)] = &[
     ("known_constants_control", "lim := 3\ni := mut 0\nwhile *i < lim { i += 1 }\n*i\non := *i == lim\nacc := mut [int] []\nfor e in [1, 2, 3, 4]~ { if on { acc += [e] } }\n*acc\noff := !on\nfor e in [1, 2]~ { if off { acc += [e * 100] } else { acc += [e * 7] } }\n*acc\nn := std.len(*acc)\nfill := [0; n]\nstd.len(fill)\nidx := n - 1\n(*acc)[idx]\n(*acc)[0:idx]"),
     ("single_statement_blocks", "x := 1\n{ x := 2 }\nx\nok := true\nif ok { x := 3 }\nx\nif ok { y := 4 } else { y := 5 }\nz := { x := 6 }\n(x, z)\nfor e in [7]~ { x := e }\nx\nw := mut 2\nwhile *w > 0 { w -= 1 }\nk := (v: int) -> int { { x := v } return x }\nk(9)\n(x, *w)"),
     ("any_params", "tagged := (tag: any, n: int) -> int { return n + 1 }\ntagged(1, 2)\ntri := (a: int, b: any, c: string) -> string { return c }\ntri(1, 2.5, \"x\")\nanyfirst := (a: any, b: [int], c: (int, string)) -> int { return std.len(b) + c.0 }\nanyfirst((), [1], (1, \"s\"))\nlast := (n: int, rest: any) -> int { return n }\nlast(1, \"x\")\nfour := (a: string, b: any, c: any, d: bool) -> bool { return d }\nfour(\"s\", 1, 2, true)"),
+    ("match_value_arms", "id := (x: int) -> int { return x }\nv := id(5)\nr := match v { 5 => \"five\", n: int => \"int\", }\nr\nw := id(6)\nr2 := match w { 5, 7 => \"a\", 6 => \"six\", => \"other\", }\nr2\ns := \"k\"\nr3 := match s { \"j\", \"k\" => 1, t: string => 2, }\nr3\nu := [v, s]\nr4 := match u { [5, \"k\"] => 1, a: [int|string] => 2, }\n(r, r2, r3, r4)"),
     ("own_name_param", "f := (f: int, g: int) -> int { return f + g }\nf(1, 2)\ng := (x: int) -> int { g := x + 1; return g }\ng(1)\ng(2)"),
 ];
 
@@ -61,6 +62,9 @@ pub const AGAIN_PROGS: &[&str] = &[
     "it := [4, 5, 6]~ @ (v: int) -> int { return v + 1 }; (it(), it $])",
     "p := [1, 2, 3, 4]~ \\ (v: int) -> bool { return v % 2 == 0 }; p",
     "c := mut 1; g := () -> mut int { return c }; g() += 4; (*c, *g())",
+    // defaults of exhausted type filters are made per execution (cells!)
+    "it := [1, 2.5]~ ? mut int; (con, d) := it(); d += 1; (con, *d)",
+    "it := [1]~ ? (mut int, int); (c1, d1) := it(); d1.0 += 1; *d1.0",
     "m := import \"modc\"; m.next(); (m.next(), *m.n)",
     "m := import \"modi\"; m.it(); (m.it(), m.it $])",
     "f := () -> int { m := import \"modc\"; return m.next() + m.next() }; (f(), f())",
@@ -356,6 +360,7 @@ fn snapshot(interp: &Interpreter, names: &[String]) -> Vec<(String, String)> {
 }
 
 pub fn run_scenario(sc: &Scenario) -> RunReport {
+    crate::run::note_current(|| sc.to_json());
     let sc = sc.clone();
     let r = on_fresh_thread(sc.key_seed, move || {
         let mut rep = RunReport::default();
@@ -613,7 +618,7 @@ pub fn run_scenario(sc: &Scenario) -> RunReport {
                     empty[pos] = (Variable::from(Vec::<Variable>::new()), "[]".to_string());
                     vectors.push(empty);
                     // containers whose elements are of another type / only partly of the right type
-                    for lit in ["[\"oops\"]", "[1, 2.5]", "[2.5]", "[[1]]", "[1, \"x\"]", "[()]"] {
+                    for lit in ["[\"oops\"]", "[1, 2.5]", "[2.5]", "[[1]]", "[1, \"x\"]", "[()]", "[0; 0]", "[\"s\"; 0]", "[2.5; 0]", "[[1]; 0]"] {
                         let scratch = Interpreter::with_stdlib();
                         if let Ok(Ok(v)) = Code::parse(&scratch, lit).map(|c| c.exec()) {
                             let mut wrong = good.clone();
